@@ -361,6 +361,14 @@ class RpmVersion(Version):
     def build_value(cls, string):
         return rpm.RpmVersion.from_string(string)
 
+    @classmethod
+    def is_valid(cls, string):
+        # a valid version has a numeric epoch, if any, and a version
+        try:
+            return bool(string) and bool(cls.build_value(string).version)
+        except ValueError:
+            return False
+
 
 class GentooVersion(Version):
     @classmethod
